@@ -1,7 +1,7 @@
 #!/bin/bash
 # tools/verify_seed.sh <seed dir> <out file>: confirm a seeded change in a scratch worktree: patch applies, demo fails with it and passes without,
 # the whole existing test suite still passes with it (baseline failures of this sandbox excepted). Low priority; removes the worktree afterwards.
-SD="$1"; OUT="$2"
+SD="$1"; OUT="$2"; TESTS="${3:-test}"   # optional third argument: pytest selection (default: the whole suite)
 WT=/tmp/seedverify/$$
 mkdir -p /tmp/seedverify
 git -C /repo worktree add --detach "$WT" HEAD >/dev/null 2>&1 || { echo "worktree failed" > "$OUT"; exit 2; }
@@ -12,7 +12,8 @@ cd "$WT"
 PYTHONPATH="$WT/src" /venv/bin/python "$SD/demo.py" > /tmp/seedverify/$$.demo0 2>&1; echo "demo without change: exit=$? $(tail -1 /tmp/seedverify/$$.demo0 | cut -c1-200)"
 if git apply "$SD/patch.diff"; then echo "patch applies: yes"; else echo "patch applies: NO"; exit 3; fi
 PYTHONPATH="$WT/src" /venv/bin/python "$SD/demo.py" > /tmp/seedverify/$$.demo1 2>&1; echo "demo with change: exit=$? $(tail -1 /tmp/seedverify/$$.demo1 | cut -c1-200)"
-PYTHONPATH="$WT/src" nice -n 19 timeout 7200 /venv/bin/python -m pytest -q -p no:cacheprovider -n 4 --timeout=900 test > /tmp/seedverify/$$.tests 2>&1
+PYTHONPATH="$WT/src" nice -n 19 timeout 7200 /venv/bin/python -m pytest -q -p no:cacheprovider -n 4 --timeout=900 $TESTS > /tmp/seedverify/$$.tests 2>&1
+echo "pytest selection: $TESTS"
 echo "test suite with change: $(tail -1 /tmp/seedverify/$$.tests)"
 echo "failed tests:"; grep "^FAILED\|^ERROR" /tmp/seedverify/$$.tests | cut -c1-160
 } > "$OUT" 2>&1
